@@ -16,6 +16,7 @@
 #include <common/InternalException.h>
 
 #include <functional>
+#include <random>
 #include <set>
 
 namespace opensmt {
@@ -240,6 +241,9 @@ public:
     // Inverts the normal order Hashing + RecyclePivots
     bool			switchToRPHashing()			{ return (config.proof_switch_to_rp_hash >= 1);}
     inline bool    additionalRandomization       ( ) { return ( config.proof_random_context_analysis == 1 ); }
+    // Per-graph generator (seeded from the configured seed): the process-wide rand() is shared with every other solver instance
+    std::minstd_rand randomGenerator;
+    inline unsigned nextRandom                   ( ) { return randomGenerator(); }
     //
     // Build et al.
     //
